@@ -51,7 +51,7 @@ func (o Op) String() string {
 }
 
 // OpKinds lists the call kinds.
-var OpKinds = []string{"decode", "decodeopts", "chained", "chainedopts", "chainedlog1", "chainedlog3", "decodelogger", "integrity", "header", "headerfileid", "decodefault", "encode", "encodebad", "encodefw"}
+var OpKinds = []string{"decode", "decodeopts", "chained", "chainedopts", "chainedlog1", "chainedlog3", "decodelogger", "integrity", "header", "headerfileid", "decodefault", "encode", "encodebad", "encodefw", "encodeedit", "hdrintegrity"}
 
 // faultAts are the byte counts after which the reader of a "decodefault"
 // call fails with an error of its own (inside the header after the size
@@ -99,6 +99,19 @@ func errText(err error) string {
 // Run executes op and returns a canonical description of everything the call
 // returned. state, if non-nil, supplies already-built Files so that "encode
 // the same object again" is possible.
+// Verdict returns the part of a call's result that is wrong whatever a
+// baseline says (a marker line written in capitals by the call itself: the
+// File changed after the call had returned, an edited File encoded other
+// bytes than an equal fresh one, the call did not return, ...), or "".
+func Verdict(raw string) string {
+	for _, line := range strings.Split(raw, "\n") {
+		if strings.HasPrefix(line, "THE ") || strings.HasPrefix(line, "File.CRC CHANGED") {
+			return line
+		}
+	}
+	return ""
+}
+
 // HistoryKinds are the call kinds of sequential histories: OpKinds plus calls
 // that cannot be mixed into concurrent programs.
 var HistoryKinds = append(append([]string{}, OpKinds...), "loggerpanic", "loggerafter")
@@ -231,6 +244,16 @@ func runOp(p *Pool, op Op, files map[int]*fit.File) (res string) {
 			res += "\nerror text changed after return: " + again
 		}
 		return res
+	case "hdrintegrity":
+		// the method on the Header value DecodeHeader returns (and on a copy
+		// whose stored CRC is off by one)
+		h, err := fit.DecodeHeader(bytes.NewReader(p.Bytes[op.Idx]))
+		if err != nil {
+			return "err=" + errText(err)
+		}
+		bad := h
+		bad.CRC++
+		return fmt.Sprintf("hdr=%v integrity=%s off-by-one=%s", h, errText(h.CheckIntegrity()), errText(bad.CheckIntegrity()))
 	case "integrity":
 		return "err=" + errText(fit.CheckIntegrity(bytes.NewReader(p.Bytes[op.Idx]), false)) + " hdr=" + errText(fit.CheckIntegrity(bytes.NewReader(p.Bytes[op.Idx]), true))
 	case "header":
@@ -263,6 +286,32 @@ func runOp(p *Pool, op Op, files map[int]*fit.File) (res string) {
 		if msg := prof.SpareIntact(f); msg != "" {
 			// judged by the caller whatever the baseline says
 			res += "\nOUTSIDE-THE-FILE: " + msg
+		}
+		return res
+	case "encodeedit":
+		// a File is encoded, edited in place (a field set that none of the
+		// messages of its group carried before) and encoded again: the
+		// second output is what a first Encode of an equal File writes
+		ord := binary.ByteOrder(binary.LittleEndian)
+		if op.BE {
+			ord = binary.BigEndian
+		}
+		f, err := gen.BuildFile(p.Specs[op.Idx])
+		if err != nil {
+			return "HARNESS build: " + err.Error()
+		}
+		var first, second, fresh bytes.Buffer
+		if err := fit.Encode(&first, f, ord); err != nil {
+			return "first err=" + errText(err)
+		}
+		what := prof.EditInPlace(f)
+		err = fit.Encode(&second, f, ord)
+		res := fmt.Sprintf("edited=%s err=%s bytes=%s", what, errText(err), Hash(hex.EncodeToString(second.Bytes())))
+		if g, err2 := gen.BuildFile(p.Specs[op.Idx]); err2 == nil && err == nil {
+			prof.EditInPlace(g)
+			if fit.Encode(&fresh, g, ord) == nil && !bytes.Equal(second.Bytes(), fresh.Bytes()) {
+				res += "\nTHE ENCODE OF THE EDITED FILE DIFFERS FROM A FIRST ENCODE OF AN EQUAL FILE"
+			}
 		}
 		return res
 	case "encodebad":
